@@ -159,6 +159,26 @@ class Ctx:
             (self.pid, label or module, res["generated"], res["distinct"], len(res["lines"]), res["wall"]))
         return res
 
+    # ---------------- TLAPS ----------------
+    def tlapm(self, module, timeout=900):
+        """Check the proofs of spec/<module>.tla with the TLA+ proof system in a scratch copy; returns the number of obligations proved.
+        A failed or unavailable prover is an infrastructure failure (exit 2), never a verdict about the code."""
+        wd = tempfile.mkdtemp(prefix="tlaps-", dir=self.scratch)
+        for f in os.listdir(SPEC):
+            if f.endswith(".tla"):
+                shutil.copy(os.path.join(SPEC, f), wd)
+        t = time.time()
+        try:
+            p = subprocess.run(["tlapm", "--threads", "8", module + ".tla"], cwd=wd, capture_output=True, text=True, timeout=timeout)
+        except (OSError, subprocess.TimeoutExpired) as e:
+            raise Infra("tlapm on %s: %s" % (module, e))
+        out = p.stdout + p.stderr
+        m = re.search(r"All (\d+) obligations? proved", out)
+        if p.returncode != 0 or not m:
+            raise Infra("tlapm did not prove %s:\n%s" % (module, out[-3000:]))
+        log("[%s] TLAPS %s: %s obligations proved, %.1fs" % (self.pid, module, m.group(1), time.time() - t))
+        return int(m.group(1))
+
     # ---------------- evidence / verdict ----------------
     def sample(self, obj, cap=4):
         if len(self.samples) < cap:
